@@ -15,6 +15,7 @@ import (
 	"sort"
 	"strconv"
 	"strings"
+	"sync/atomic"
 	"time"
 
 	"github.com/fullstorydev/emulators/storage/gcsemu"
@@ -24,19 +25,20 @@ import (
 
 // Server is one real emulator instance (memory or file store) plus an HTTP client.
 type Server struct {
+	nBody int64
 	Store string // mem | file
 	Dir   string
 	Srv   *gcsemu.Server
 	URL   string
 	HC    *http.Client
 
-	buckets []string            // bucket names used so far
-	names   map[string][]string // bucket -> object names used so far
-	last    *Obs
-	ids     map[int]int // program op index of a ResumableStart -> upload id handed out
-	upBN    map[int][2]string // upload id -> bucket, name given at the start
-	model   map[int64]int64
-	Logs    []string
+	buckets   []string            // bucket names used so far
+	names     map[string][]string // bucket -> object names used so far
+	last      *Obs
+	ids       map[int]int       // program op index of a ResumableStart -> upload id handed out
+	upBN      map[int][2]string // upload id -> bucket, name given at the start
+	model     map[int64]int64
+	Logs      []string
 	abandoned []*gcsemu.Server
 	extraHdr  map[string]string
 	frozen    bool // concurrent use: do not record new bucket/object names
@@ -64,7 +66,6 @@ func (s *Server) ExecHdr(op *Op, hdr map[string]string) {
 	view.frozen = true
 	view.Exec(op, map[string][]int64{}, 0)
 }
-
 
 func Start(store, dir string) (*Server, error) {
 	s := &Server{Store: store, Dir: dir, names: map[string][]string{}, ids: map[int]int{}, upBN: map[int][2]string{}, model: map[int64]int64{}}
@@ -163,6 +164,11 @@ func (s *Server) do(method, rawurl string, hdr map[string]string, body []byte, g
 			body = buf.Bytes()
 		}
 		rd = bytes.NewReader(body)
+		// transfer framing is an encoding of the same request: every other body is streamed (no Content-Length,
+		// chunked transfer encoding), the rest is sent with its length
+		if n := atomic.AddInt64(&s.nBody, 1); n%2 == 0 && len(body) > 0 {
+			rd = struct{ io.Reader }{rd}
+		}
 	}
 	req, err := http.NewRequest(method, rawurl, rd)
 	if err != nil {
@@ -509,6 +515,12 @@ func (s *Server) Exec(op *Op, hist map[string][]int64, opIndex int) {
 		body := objectJSON("", op.Attrs, op.Meta, "")
 		if op.BadBody {
 			body = []byte(`{"contentType": "x", "metadata": {"zz": "1"`)
+		} else if op.Junk {
+			// what a client that sends back a whole (stale) object resource does
+			var m map[string]interface{}
+			_ = json.Unmarshal(body, &m)
+			m["generation"], m["metageneration"], m["size"], m["bucket"], m["id"], m["kind"] = "1", "1", "12345", "elsewhere", "elsewhere/x/1", "storage#object"
+			body, _ = json.Marshal(m)
 		}
 		res := s.do("PATCH", s.URL+"/storage/v1/b/"+url.PathEscape(b)+"/o/"+esc(n, op.Slash)+"?"+q.Encode(), map[string]string{"Content-Type": "application/json"}, body, false)
 		s.finish(r, res)
